@@ -207,7 +207,7 @@ on finite values they are the `differs` / `arrayDiff` of the sections above. -/
 theorem differsV_fin (t : NT) (o : DiffOpts) (a b : Int) : differsV t o (.fin a) (.fin b) = differs t o a b := by
   cases t <;> try rfl
   all_goals
-    simp only [differsV, differsF, differs, perF, FV.isZero, FV.sub, FV.abs, FV.gt, absQuot, perGt, stored, absDiff, absLimit]
+    simp only [differsV, differsF, differs, perF, FV.isZero, FV.sub, FV.abs, FV.gt, absQuot, perGt, stored, absDiff, absLimit, oneIsNan, FV.isNan, bne_self_eq_false, Bool.or_false]
     by_cases hp : o.pr8 = 0
     · simp [hp]
     · by_cases ha : a = 0
@@ -244,9 +244,9 @@ theorem arrayDiffV_fin (t : NT) (o : DiffOpts) (l1 l2 : List Int) :
 theorem differsV_refl (t : NT) (o : DiffOpts) (a : FV) (ht : 0 ≤ o.tl8) (hp : 0 ≤ o.pr8) : differsV t o a a = false := by
   cases a with
   | fin v => rw [differsV_fin]; exact differs_refl t o v ht hp
-  | nan => cases t <;> simp [differsV, differsF, perF, FV.isZero, FV.sub, FV.abs, FV.gt, absQuot, perGt]
-  | pinf => cases t <;> simp [differsV, differsF, perF, FV.isZero, FV.sub, FV.abs, FV.gt, absQuot, perGt]
-  | ninf => cases t <;> simp [differsV, differsF, perF, FV.isZero, FV.sub, FV.abs, FV.gt, absQuot, perGt]
+  | nan => cases t <;> simp [differsV, differsF, perF, FV.isZero, FV.sub, FV.abs, FV.gt, absQuot, perGt, oneIsNan, FV.isNan]
+  | pinf => cases t <;> simp [differsV, differsF, perF, FV.isZero, FV.sub, FV.abs, FV.gt, absQuot, perGt, oneIsNan, FV.isNan]
+  | ninf => cases t <;> simp [differsV, differsF, perF, FV.isZero, FV.sub, FV.abs, FV.gt, absQuot, perGt, oneIsNan, FV.isNan]
 
 /-- **array_diff is reflexive on every buffer**: a buffer compared with itself (or with a bit-identical one: the model
     does not see more than the values) gives `n_diff = 0` and prints nothing - also when it holds NaN / ±Inf -/
@@ -259,7 +259,7 @@ theorem arrayDiffV_self (t : NT) (o : DiffOpts) (ht : 0 ≤ o.tl8) (hp : 0 ≤ o
 
 example : differsV .f64 { tl8 := 4 } .nan .nan = false ∧ differsV .f32 { pr8 := 4 } .pinf .pinf = false
     ∧ differsV .f32 { pr8 := 4 } .ninf .ninf = false := by decide   -- the hypotheses of differsV_refl hold for real option sets
-example : arrayDiffV .f64 { maxErr := 1 } [.fin 8, .pinf, .nan, .fin 0] [.fin 8, .ninf, .fin 8, .ninf] = (2, 1) := by decide  -- NaN ↔ 1.0 passed over
+example : arrayDiffV .f64 { maxErr := 1 } [.fin 8, .pinf, .nan, .fin 0] [.fin 8, .ninf, .fin 8, .ninf] = (3, 1) := by decide  -- NaN ↔ 1.0 counted
 example : arrayDiffV .f32 {} [.nan, .pinf, .ninf, .fin 0, .fin (-3)] [.nan, .pinf, .ninf, .fin 0, .fin (-3)] = (0, 0) := by decide
 
 theorem FV.sub_abs_comm (a b : FV) : (a.sub b).abs = (b.sub a).abs := by
@@ -270,7 +270,7 @@ theorem FV.sub_abs_comm (a b : FV) : (a.sub b).abs = (b.sub a).abs := by
     values included -/
 theorem differsV_symm (t : NT) (o : DiffOpts) (a b : FV) (hp : o.pr8 = 0) : differsV t o a b = differsV t o b a := by
   cases t
-  case f32 | f64 => simp only [differsV, differsF, hp, ne_eq, not_true_eq_false, if_false, FV.sub_abs_comm a b]
+  case f32 | f64 => simp only [differsV, differsF, hp, ne_eq, not_true_eq_false, if_false, FV.sub_abs_comm a b, oneIsNan, bne_comm (a := a.isNan)]
   all_goals
     cases a <;> cases b <;> simp only [differsV]
     exact differs_symm _ o _ _ hp
@@ -278,45 +278,34 @@ theorem differsV_symm (t : NT) (o : DiffOpts) (a b : FV) (hp : o.pr8 = 0) : diff
 example : differsV .f32 {} (.fin 0) .pinf = differsV .f32 {} .pinf (.fin 0) := differsV_symm _ _ _ _ rfl
 
 /-- **what the default test (no `-t`, no `-p`) of the floating-point branches lets pass**: a pair is NOT counted exactly when
-    the two elements hold the same value, or when one of them is a NaN.  The second alternative is a blind spot of the code
-    as it is (`fabs(NaN - x) > limit` is false): a value that became a NaN - or a NaN that became a number - is not
-    reported (finding `hdiff-nan-difference-not-greater-than-limit`). -/
-theorem differsF_default_iff (a b : FV) : differsF {} a b = false ↔ (a = b ∨ a = .nan ∨ b = .nan) := by
-  cases a <;> cases b <;> simp [differsF, FV.sub, FV.abs, FV.gt]
+    the two elements hold the same value.  (Before fix 27db4d9 a NaN on one side was let pass too: `fabs(NaN - x) > limit` is
+    false; finding `hdiff-nan-difference-not-greater-than-limit`, now fixed with `ONE_IS_NAN`.) -/
+theorem differsF_default_iff (a b : FV) : differsF {} a b = false ↔ a = b := by
+  cases a <;> cases b <;> simp [differsF, FV.sub, FV.abs, FV.gt, oneIsNan, FV.isNan]
   omega
 
-/-- ... so a single changed element is flagged in both orders as soon as no NaN is involved: number ↔ other number,
-    number ↔ ±Inf, +Inf ↔ -Inf -/
-theorem single_change_flaggedF (a b : FV) (h : a ≠ b) (ha : a ≠ .nan) (hb : b ≠ .nan) :
+/-- ... so a single changed element is flagged in both orders, whatever the two values are: number ↔ other number,
+    number ↔ ±Inf, +Inf ↔ -Inf, number / ±Inf ↔ NaN -/
+theorem single_change_flaggedF (a b : FV) (h : a ≠ b) :
     differsF {} a b = true ∧ differsF {} b a = true := by
   constructor
   · cases hd : differsF {} a b
-    · rcases (differsF_default_iff a b).mp hd with h1 | h1 | h1
-      · exact absurd h1 h
-      · exact absurd h1 ha
-      · exact absurd h1 hb
+    · exact absurd ((differsF_default_iff a b).mp hd) h
     · rfl
   · cases hd : differsF {} b a
-    · rcases (differsF_default_iff b a).mp hd with h1 | h1 | h1
-      · exact absurd h1.symm h
-      · exact absurd h1 hb
-      · exact absurd h1 ha
+    · exact absurd ((differsF_default_iff b a).mp hd).symm h
     · rfl
 
-/-- the blind spot, for every `-t` limit: with the absolute criterion a NaN on either side is never a difference -/
-theorem nan_never_differs_abs (o : DiffOpts) (hp : o.pr8 = 0) (b : FV) :
-    differsF o .nan b = false ∧ differsF o b .nan = false := by
-  cases b <;> simp [differsF, hp, FV.sub, FV.abs, FV.gt]
+/-- a NaN in exactly one file is a difference for every `-t` limit and every `-p` ratio, in both orders ... -/
+theorem nan_always_differs (o : DiffOpts) (b : FV) (hb : b ≠ .nan) :
+    differsF o .nan b = true ∧ differsF o b .nan = true := by
+  cases b <;> simp_all [differsF, oneIsNan, FV.isNan] <;> (split <;> simp)
 
-/-- with `-p`: a NaN in the FIRST file is never a difference; a NaN in the second file is one exactly when the first file
-    holds 0 there ("not comparable") -/
-theorem nan_differs_rel (o : DiffOpts) (hp : o.pr8 ≠ 0) (b : FV) :
-    differsF o .nan b = false ∧ (differsF o b .nan = true ↔ b = .fin 0) := by
-  cases b <;> simp [differsF, hp, perF, FV.isZero, FV.sub, absQuot, perGt]
-  rename_i v
-  by_cases hv : v = 0 <;> simp [hv]
+/-- ... and two NaNs are equal content for every option -/
+theorem nan_nan_equal (o : DiffOpts) : differsF o .nan .nan = false := by
+  simp [differsF, oneIsNan, FV.isNan, perF, FV.isZero, FV.sub, FV.abs, FV.gt, absQuot, perGt]
 
-example : differsF {} .nan (.fin 8) = false ∧ differsF {} (.fin 8) .nan = false := by decide      -- NaN ↔ 1.0 : not seen
+example : differsF {} .nan (.fin 8) = true ∧ differsF {} (.fin 8) .nan = true := by decide      -- NaN ↔ 1.0 : reported
 example : differsF {} .pinf .ninf = true ∧ differsF {} .pinf (.fin 8) = true ∧ differsF {} .pinf .pinf = false := by decide
 example : differsF { pr8 := 4 } .pinf .ninf = false ∧ differsF { pr8 := 4 } (.fin 8) .pinf = true := by decide  -- -p: (B-A)/A = Inf/Inf
 
